@@ -9,7 +9,7 @@ One fuelled function `parseLvl f k term ts` for "parse at level k" (`k = 0` is `
 * level 2: prefix operators are handled in `parseLvl` itself (`expr_p2_unaryop`), nothing follows,
 * levels 3‥12 and 15: `parse_binary_operations` — a left-associative loop whose operator test is the
   generated `parseOpAt` (arms of each `expr_pN::parse_op`, in order, guards included),
-* level 13: `p12 [? p13 : p13]`, falling back to the `p12` result when the tail does not parse,
+* level 13: `p12 [? p<ternMiddleLevel> : p<ternLastLevel>]` (levels read from the source), falling back to the `p12` result when the tail does not parse,
 * level 14: `p13 [op p14]`, same fall-back.
 
 `term` is `SymbolTable::terminator`: `Standard` inside parentheses, `Sequence` inside `[...]` and call
@@ -65,9 +65,9 @@ def cont : Nat → Nat → Terminator → Expr → List Tok → Option (Expr × 
     else if k = 13 then
       match ts with
       | .p .QuestionMark :: r =>
-        match parseLvl f 13 term r with
+        match parseLvl f ternMiddleLevel term r with
         | some (a, .p .Colon :: r2) =>
-          match parseLvl f 13 term r2 with
+          match parseLvl f ternLastLevel term r2 with
           | some (b, r3) => some (.tern acc a b, r3)
           | none => some (acc, ts)
         | _ => some (acc, ts)
